@@ -58,16 +58,18 @@ def execSetBit (s : State) (k off bit : Nat) : State × Reply :=
 the end of the pattern; a trailing lone `\` is a literal backslash. -/
 
 /-- one pass over a class body, as the `while(1)` of `stringmatchlen`: (does the class contain `c`,
-    the pattern after the closing `]`) -/
+    the pattern after the closing `]`).  Each arm binds its recursive call ONCE (`let r := …`): the
+    compiled driver would otherwise evaluate it twice per byte — exponential in a long class body. -/
 def classScan (c : Nat) : BS → Bool × BS
   | [] => (false, [])
-  | 92 :: x :: rest => ((c == x) || (classScan c rest).1, (classScan c rest).2)
+  | 92 :: x :: rest => let r := classScan c rest; ((c == x) || r.1, r.2)
   | 93 :: rest => (false, rest)
   | [x] => (c == x, [])
-  | [x, y] => ((c == x) || (classScan c [y]).1, (classScan c [y]).2)
+  | [x, y] => let r := classScan c [y]; ((c == x) || r.1, r.2)
   | lo :: 45 :: hi :: rest =>
-    ((decide (min lo hi ≤ c) && decide (c ≤ max lo hi)) || (classScan c rest).1, (classScan c rest).2)
-  | x :: y :: z :: rest => ((c == x) || (classScan c (y :: z :: rest)).1, (classScan c (y :: z :: rest)).2)
+    let r := classScan c rest
+    ((decide (min lo hi ≤ c) && decide (c ≤ max lo hi)) || r.1, r.2)
+  | x :: y :: z :: rest => let r := classScan c (y :: z :: rest); ((c == x) || r.1, r.2)
 
 /-- the matcher with explicit fuel (every call consumes a pattern byte or a string byte) -/
 def globFuel : Nat → BS → BS → Bool
@@ -84,8 +86,8 @@ def globFuel : Nat → BS → BS → Bool
     | [] => false
     | c :: s' =>
       match p with
-      | 94 :: p' => !(classScan c p').1 && globFuel n (classScan c p').2 s'
-      | _ => (classScan c p).1 && globFuel n (classScan c p).2 s'
+      | 94 :: p' => let r := classScan c p'; !r.1 && globFuel n r.2 s'
+      | _ => let r := classScan c p; r.1 && globFuel n r.2 s'
   | n + 1, 92 :: x :: p, s =>
     match s with
     | [] => false
